@@ -74,6 +74,9 @@ func genDistrAccount(t *rapid.T, label string, o DistrGenOpts, asSource bool, us
 			switch {
 			case k <= 2:
 				a = DAcc{Type: tBase, Id: KeyAcc(5 + k).Addr.String()}
+				if rapid.IntRange(0, 4).Draw(t, l+"_upper") == 0 {
+					a.Id = strings.ToUpper(a.Id) // the other valid spelling of the same address
+				}
 			case k == 3:
 				a = DAcc{Type: tBase, Id: FreshAddr(100).String()}
 			case k == 4:
@@ -265,6 +268,9 @@ func (c DCfg) Classes() map[string]bool {
 		}
 		if (a.Type == tModule && a.Id == distrtypes.DistributorMainAccount) || (a.Type == tBase && strings.EqualFold(a.Id, ModuleAddr(distrtypes.DistributorMainAccount).String())) {
 			cl["main_alias"] = true
+		}
+		if a.Type == tBase && a.Id == strings.ToUpper(a.Id) {
+			cl["base_id_spelled_in_upper_case"] = true
 		}
 		if a.Type == tBase && a.Id == LockedVestingAddr().String() {
 			cl["locked_vesting_account"] = true
